@@ -235,6 +235,13 @@ def stepOp (st : St) (toks : List String) : St :=
        | k :: _ =>
          { st with ma := runM st.ma [.del c k], pendingPop := some r.toNat!,
                    lastRes := s!"{k}:{match CIDict.getitem lower (st.m c) k with | some v => fmtV v | none => "?"}" })
+  | ["src"] =>
+      -- plain mappings handed to a constructor / replace / update / combine_lower_dict are the caller's
+      -- values: in the model (and in the abstract map) no operation writes to them
+      { st with lastRes := "same", lastSpecRes := "same", lastSpecResV := "same" }
+  | ["nop"] =>
+      -- the caller changed one of its own mappings: no register changes
+      { st with lastRes := "ok", lastSpecRes := "ok", lastSpecResV := "ok" }
   | "res" :: [t] =>
       (match st.pendingPop with
        | some r =>
